@@ -120,11 +120,19 @@ def described (autoDescribe : Bool) (c : Collector) : Option (List (Name × MTyp
   | some d => some d
   | none => if autoDescribe then some (c.families.map fun f => (f.name, f.typ)) else none
 
-/-- `CollectorRegistry._get_names` -/
+/-- `if x not in result: result.append(x)` -/
+def appendNew (result : List Name) (n : Name) : List Name := if n ∈ result then result else result ++ [n]
+
+def addAll (result : List Name) (ns : List Name) : List Name := ns.foldl appendNew result
+
+/-- `metric.name + suffix for suffix in [''] + type_suffixes.get(metric.type, [])` -/
+def familyNames (m : Name × MType) : List Name := ([] :: suffixesOf m.2).map (fun suf => m.1 ++ suf)
+
+/-- `CollectorRegistry._get_names`: every name is recorded once, in order of first occurrence -/
 def getNames (autoDescribe : Bool) (c : Collector) : List Name :=
   match described autoDescribe c with
   | none => []
-  | some ms => ms.flatMap fun m => m.1 :: (suffixesOf m.2).map (fun suf => m.1 ++ suf)
+  | some ms => ms.foldl (fun result m => addAll result (familyNames m)) []
 
 /-- `for name in names: self._names_to_collectors[name] = collector` -/
 def setAll (o : Owner) (names : List Name) (d : List (Name × Owner)) : List (Name × Owner) :=
@@ -195,12 +203,12 @@ def collect (s : State) : Collected :=
   { families := tiFamily s.targetInfo ++ s.collectorToNames.flatMap (fun e => e.1.families)
     calls := s.collectorToNames.map (fun e => Owner.coll e.1) }
 
-/-- `Metric._restricted_metric` — note the rebuilt family is `Metric(self.name, self.documentation, self.type)`:
-no unit -/
+/-- `Metric._restricted_metric`: `Metric(self.name, self.documentation, self.type, self.unit)` with the kept samples
+(the name already ends in `_unit`, so the constructor does not alter it) -/
 def restrictedMetric (names : List Name) (f : Family) : Option Family :=
   let samples := f.samples.filter (fun smp => decide (smp.name ∈ names))
   if samples.isEmpty then none
-  else some { name := f.name, help := f.help, typ := f.typ, unit := [], samples := samples }
+  else some { name := f.name, help := f.help, typ := f.typ, unit := f.unit, samples := samples }
 
 /-- `collectors.add(x)` on a set kept as a list -/
 def setAdd (o : Owner) (acc : List Owner) : List Owner := if o ∈ acc then acc else acc ++ [o]
@@ -210,11 +218,9 @@ def setAdd (o : Owner) (acc : List Owner) : List Owner := if o ∈ acc then acc 
 def selectCollectors (n2c : List (Name × Owner)) : List Name → List Owner → List Owner
   | [], acc => acc
   | n :: ns, acc =>
-    if n ≠ tiName then
-      match dGet n n2c with
-      | some o => selectCollectors n2c ns (setAdd o acc)
-      | none => selectCollectors n2c ns acc
-    else selectCollectors n2c ns acc
+    match dGet n n2c with
+    | some o => selectCollectors n2c ns (setAdd o acc)
+    | none => selectCollectors n2c ns acc
 
 /-- `RestrictedRegistry.collect` of `registry.restricted_registry(names)` -/
 def restrictedCollect (names : List Name) (s : State) : Collected :=
